@@ -83,6 +83,8 @@ func runC07(c *Ctx) {
 	c.Rule("C07.O13", "E5", "multi-line fields are decided over all their lines: the request's close decision does not read Connection through Header.Get (first line only), and every line is split into its comma-separated options", 2)
 	c.Rule("C07.O14", "E5", "header and trailer names are canonicalised by net/http's own function: every non-empty value stored into Parser.headerKey is the direct result of http.CanonicalHeaderKey (a private fast path with a different word rule gives different map keys)", 4)
 	c07NamesAndLines(c)
+	c.Rule("C07.O15", "E4", "a 1xx, 204 or 304 response has no body whatever its framing fields say (a 304 may carry the Content-Length of the entity it stands for): the end-of-head state enters a body state only behind the !noBody test, noBody is computed from the status code where the code is parsed, and handleMessage resets it", 3)
+	c07NoBodyStatuses(c)
 	c.Rule("C07.O4", "E8", "request.Close: major<1 -> true; 1.0 -> hasClose || !keepAlive; else hasClose, with hasClose / keepAlive set by the Connection values \"close\" / \"keep-alive\"", 1)
 
 	// ------------------------------------------------------------------ O1
@@ -729,5 +731,68 @@ func c07NamesAndLines(c *Ctx) {
 					"the header name stored at "+c.Pos(st)+" is "+c.P.Desc(ir.Resolve(st.Val))+", not the direct result of http.CanonicalHeaderKey: names that net/http canonicalises differently (a capital after '_', '.', ...) end up under another map key, and a declared trailer of that name is never matched")
 			}
 		}
+	}
+}
+
+// c07NoBodyStatuses: O15.
+func c07NoBodyStatuses(c *Ctx) {
+	const fNoBody = "nbhttp.Parser.noBody"
+	parse := c.Fn("C07.O15", "(*nbhttp.Parser).Parse")
+	if parse == nil {
+		return
+	}
+	byName := c.stateConsts()
+	consts := map[int64]string{}
+	for name, k := range byName {
+		consts[k] = name
+	}
+	fi := c.P.Info(parse)
+	// entries into the two body states from the end-of-head state
+	n := 0
+	bad := ""
+	for _, cs := range c.P.CallsNamed(parse, "(*nbhttp.Parser).nextState") {
+		k, ok := ir.ConstInt(cs.Common.Args[1])
+		if !ok {
+			continue
+		}
+		name := consts[k]
+		if name != "stateBodyContentLength" && name != "stateBodyChunkSizeBefore" {
+			continue
+		}
+		// only the entries from the end-of-head state
+		if eb := c.stateCases(parse)[byName["stateHeaderOverLF"]]; eb == nil || len(eb.Instrs) == 0 || !fi.Dominates(eb.Instrs[0], cs.In) {
+			continue
+		}
+		n++
+		if !fi.HasFact(cs.In, func(ft ir.Fact) bool {
+			f, set, ok := c.P.BoolFieldTest(ft.Cond, ft.Truth)
+			return ok && f == fNoBody && !set
+		}) {
+			bad = "the parser enters " + name + " at " + c.Pos(cs.In) + " without knowing that the message may carry a body: a 304 response with a Content-Length (well-formed: the length of the entity it stands for) swallows the first bytes of the next response as its body"
+		}
+	}
+	c.Cond(bad == "" && n > 0, "C07.O15", fnKey(c.P, parse, "body states behind !noBody"), c.FnPos(parse), fmt.Sprintf("%d entries into a body state, each behind !noBody", n), bad)
+	// computed from the status code
+	fromCode := false
+	for _, st := range c.P.StoresTo(parse, fNoBody) {
+		dep := map[ssa.Value]bool{}
+		for _, cs := range c.P.CallsNamed(parse, "strconv.Atoi") {
+			for v := range c.dependsOn(parse, cs.Value()) {
+				dep[v] = true
+			}
+		}
+		if dep[st.Val] || dep[ir.Resolve(st.Val)] {
+			fromCode = true
+		}
+	}
+	c.Cond(fromCode, "C07.O15", fnKey(c.P, parse, "noBody computed from the status code"), c.FnPos(parse), "store of an expression over the parsed code", "Parser.noBody is not computed from the parsed status code")
+	if hm := c.Fn("C07.O15", "(*nbhttp.Parser).handleMessage"); hm != nil {
+		reset := false
+		for _, st := range c.P.StoresTo(hm, fNoBody) {
+			if b, ok := ir.ConstBool(st.Val); ok && !b {
+				reset = true
+			}
+		}
+		c.Cond(reset, "C07.O15", fnKey(c.P, hm, "noBody reset per message"), c.FnPos(hm), "noBody = false", "handleMessage does not reset Parser.noBody: the next response on the connection inherits it and loses its body")
 	}
 }
